@@ -7,6 +7,9 @@ From RPFT Require Import Base.Sexp Base.PyStr Base.PyStrFacts Base.SexpEq Base.R
      Comp.Refine Comp.RefineFacts Comp.RefineStore Comp.RefineStep Comp.RefineRun Comp.RefineFlow.
 Import ListNotations.
 
+Section WithNames.
+Context {GN : GenNames}.
+
 Lemma Sim_init : Sim [] st0 cs0.
 Proof.
   constructor; cbn; try reflexivity.
@@ -22,55 +25,22 @@ Variable fresh : nat -> id.
 Hypothesis fresh_inj : forall a b, fresh a = fresh b -> a = b.
 Hypothesis fresh_not_sentinel : forall k, fresh k <> hard_exit_sentinel.
 
-(* the first row *)
-Lemma first_row_First cr s1 cls payloads dec0 :
-  r_type (cr_row cr) = TNode cls payloads dec0 -> cstep fresh cs0 cr = Ok s1 -> FirstOK s1.
-Proof.
-  intros Ht. unfold cstep. rewrite Ht.
-  destruct (match _ with Some p => _ | None => _ end) as [acts n1].
-  assert (Ex : match or_default (cr_uuid cr) (r_node_name (cr_row cr)) with [] => None | _ :: _ => alookup (cs_names cs0) (or_default (cr_uuid cr) (r_node_name (cr_row cr))) end = None)
-    by (destruct (or_default _ _); reflexivity).
-  rewrite Ex.
-  set (row_action := if is_basic_kind (cr_kind cr) then match payloads with p :: _ => Some p | [] => None end else None).
-  destruct (new_row_node fresh n1 (cr_kind cr) (cr_uuid cr) acts _) as [[nd n2]|x]; [|destruct row_action; discriminate].
-  assert (Hf : forall es sx, foldM (fun s' e => cadd_row_edge fresh s' e (Some (cn_uuid nd))) es (push_node cs0 nd n2) = Ok sx -> sx = push_node cs0 nd n2).
-  { induction es as [|e r IH]; intros sx; cbn; [intros H; injection H as <-; reflexivity|].
-    unfold cadd_row_edge at 1. unfold csource. cbn. destruct (e_from e); cbn; try (apply IH). discriminate. }
-  destruct (foldM _ _ (push_node cs0 nd n2)) as [s2|x] eqn:Ef; [|destruct row_action; discriminate].
-  apply Hf in Ef. subst s2. intros H.
-  assert (H' : Ok (set_names (add_cgroup (push_node cs0 nd n2) (CGRow 0 [] (rowtype_of (cr_kind cr))) (r_id (cr_row cr)))
-                             (or_default (cr_uuid cr) (r_node_name (cr_row cr))) 0) = Ok s1) by (destruct row_action; exact H).
-  injection H' as <-. split; [|split].
-  - exists [], (rowtype_of (cr_kind cr)). reflexivity.
-  - exists []. reflexivity.
-  - reflexivity.
-Qed.
-
-Lemma crun_First cr rest s cls payloads dec0 :
-  r_type (cr_row cr) = TNode cls payloads dec0 -> crun fresh (cr :: rest) = Ok s -> FirstOK s.
-Proof.
-  intros Ht. unfold crun. cbn. destruct (cstep fresh cs0 cr) as [s1|x] eqn:E; [|discriminate].
-  pose proof (first_row_First cr s1 _ _ _ Ht E) as F1. clear E. revert s1 F1.
-  induction rest as [|r rs IH]; intros s1 F1; cbn.
-  - intros H. injection H as <-. exact F1.
-  - destruct (cstep fresh s1 r) as [s2|x] eqn:E; [|discriminate]. apply IH. eapply cstep_First; eauto.
-Qed.
-
 (* what _compile_flow builds, with the positions *)
 Lemma cfinish_idx GP validate name s f :
   Inv fresh GP s -> cfinish_with fresh validate name s = Ok f ->
-  exists nds idxs, f_nodes f = map render_node nds /\ validate (map cn_uuid nds) = None
-                   /\ Forall2 (fun i nd => nth_error (cs_nodes s) i = Some nd) idxs nds
-                   /\ (forall i, i < length (cs_nodes s) -> In i idxs)
-                   /\ (FirstOK s -> exists rest, idxs = 0 :: rest).
+  exists nds ls root, f_nodes f = map render_node nds /\ validate (map cn_uuid nds) = None
+                   /\ Forall2 (fun i nd => nth_error (cs_nodes s) i = Some nd) (concat ls) nds
+                   /\ (forall i, i < length (cs_nodes s) -> In i (concat ls))
+                   /\ cs_stack s = [root] /\ mapM (cgnodes (S (length (cs_groups s))) (cs_groups s)) root = Ok ls.
 Proof.
   intros [Hst Htree Hleaf]. unfold cfinish_with. destruct (cs_heads s) eqn:Eh; [|discriminate].
   destruct (cs_stack s) as [|root [|? ?]] eqn:Es; try discriminate.
   destruct (mapM (cgnodes _ (cs_groups s)) root) as [ls|x] eqn:Em; [|discriminate].
   destruct (mapM _ (concat ls)) as [nds|x] eqn:En; [|discriminate].
   destruct (validate (map cn_uuid nds)) as [u|] eqn:Ev; [discriminate|].
-  intros H. injection H as <-. exists nds, (concat ls). cbn. split; [reflexivity|]. split; [exact Ev|].
-  pose proof (mapM_ok_Forall2 _ _ _ Em) as Fm. pose proof (mapM_ok_Forall2 _ _ _ En) as Fn. split; [|split].
+  destruct (forallb node_groups_named nds); [|discriminate].
+  intros H. injection H as <-. exists nds, ls, root. split; [reflexivity|]. split; [exact Ev|].
+  pose proof (mapM_ok_Forall2 _ _ _ Em) as Fm. pose proof (mapM_ok_Forall2 _ _ _ En) as Fn. split; [|split; [|split; [reflexivity|exact Em]]].
   - eapply Forall2_impl; [|exact Fn]. intros i nd Hi. cbn in Hi. destruct (nth_error (cs_nodes s) i); [injection Hi as ->; reflexivity|discriminate].
   - intros k Hlt. destruct (Hleaf k Hlt) as (g & Hg).
     assert (Hgl : g < length (cs_groups s)).
@@ -78,20 +48,71 @@ Proof.
     destruct (Htree g Hgl) as (r & Hr & Hs). rewrite Es in Hr. cbn in Hr. rewrite app_nil_r in Hr.
     destruct (Forall2_in_l _ _ _ _ Fm Hr) as (lr & Hlr & Hc).
     apply in_concat. exists lr. split; [exact Hlr|]. eapply cgnodes_reach; eauto.
-  - intros ((ks & rt & H0) & (rest & Hl) & _). rewrite Es in Hl. cbn in Hl. subst root.
-    cbn [mapM] in Em.
-    destruct (cgnodes (S (length (cs_groups s))) (cs_groups s) 0) as [l0|x] eqn:E0; [|discriminate].
-    cbn [cgnodes] in E0. rewrite H0 in E0. injection E0 as <-.
-    destruct (mapM (cgnodes (S (length (cs_groups s))) (cs_groups s)) rest) as [ls'|x]; [|discriminate].
-    injection Em as <-. cbn. eexists. reflexivity.
+Qed.
+
+(* ---------------------------------------------------------------- the order of the nodes
+   _compile_flow lists the nodes group by group (add_nodes_to_flow); so does the reference flow (node_order): the
+   compiled list is the reference list with every node replaced by its cluster *)
+Definition cidx (phi : list (nat * option nat)) (k : nat) : list nat :=
+  match nth_error phi k with Some c => cluster_idx c | None => [] end.
+
+Lemma flat_map_flat_map {X Y Z} (f : X -> list Y) (g : Y -> list Z) l : flat_map g (flat_map f l) = flat_map (fun x => flat_map g (f x)) l.
+Proof. induction l as [|a r IH]; cbn; [reflexivity|]. rewrite flat_map_app, IH. reflexivity. Qed.
+
+Lemma gnodes_sim phi sr sc fuel : Sim phi sr sc -> forall g l, cgnodes fuel (cs_groups sc) g = Ok l ->
+  l = flat_map (cidx phi) (gnodes fuel (s_groups sr) g).
+Proof.
+  intros Hsim. pose proof (sim_groups _ _ _ Hsim) as Hg. induction fuel as [|f IH]; intros g l; cbn; [discriminate|].
+  destruct (nth_error (cs_groups sc) g) as [y|] eqn:Ey; [|discriminate].
+  destruct (nth_error (s_groups sr) g) as [x|] eqn:Ex.
+  2:{ exfalso. apply nth_error_None in Ex. rewrite (Forall2_length' _ _ _ Hg) in Ex. apply nth_error_None in Ex. congruence. }
+  destruct (Forall2_nth _ _ _ _ _ Hg Ex) as (y' & Ey' & Hxy). assert (y' = y) by congruence. subst y'.
+  destruct Hxy as [k cls c rt nd Hk Hn Hcl|ps Hps|ps k k1 ndq rq Hps Hk Hnq Hbq|ms].
+  - intros H. injection H as <-. cbn. unfold cidx. rewrite Hk, app_nil_r. destruct c as [a [j|]]; reflexivity.
+  - intros H. injection H as <-. reflexivity.
+  - intros H. injection H as <-. cbn. unfold cidx. rewrite Hk. reflexivity.
+  - destruct (mapM (cgnodes f (cs_groups sc)) ms) as [ls|x] eqn:Em; [|discriminate]. cbn. intros H. injection H as <-.
+    rewrite flat_map_flat_map. apply mapM_ok_Forall2 in Em. clear - Em IH.
+    induction Em as [|m l0 ms ls Hm _ IHm]; cbn [flat_map concat]; [reflexivity|]. rewrite (IH _ _ Hm), IHm. reflexivity.
+Qed.
+
+Lemma order_sim phi sr sc root ls : Sim phi sr sc -> cs_stack sc = [root] ->
+  mapM (cgnodes (S (length (cs_groups sc))) (cs_groups sc)) root = Ok ls -> concat ls = flat_map (cidx phi) (node_order sr).
+Proof.
+  intros Hsim Es Em. unfold node_order. rewrite (sim_stack _ _ _ Hsim), Es. cbn [concat]. rewrite app_nil_r.
+  rewrite (Forall2_length' _ _ _ (sim_groups _ _ _ Hsim)). rewrite flat_map_flat_map.
+  apply mapM_ok_Forall2 in Em. clear Es. induction Em as [|m l0 ms ls0 Hm _ IHm]; cbn [flat_map concat]; [reflexivity|].
+  rewrite (gnodes_sim phi sr sc _ Hsim _ _ Hm), IHm. reflexivity.
+Qed.
+
+(* the nodes a group names *)
+Lemma gnodes_grow fuel gs : forall g k, In k (gnodes fuel gs g) -> In k (flat_map grow_node gs).
+Proof.
+  induction fuel as [|f IH]; intros g k; cbn; [intros []|].
+  destruct (nth_error gs g) as [[k0 cls|ps [k0|]|ms]|] eqn:E; cbn [In]; try contradiction.
+  - intros [<-|[]]. apply in_flat_map. exists (GRow k0 cls). split; [eapply nth_error_In, E|left; reflexivity].
+  - intros [<-|[]]. apply in_flat_map. exists (GNoOp ps (Some k0)). split; [eapply nth_error_In, E|left; reflexivity].
+  - intros H. apply in_flat_map in H as (m & _ & Hm). eapply IH, Hm.
+Qed.
+
+Lemma NoDup_flat_map_arg {X Y} (f : X -> list Y) l : NoDup (flat_map f l) -> (forall x, In x l -> f x <> []) -> NoDup l.
+Proof.
+  induction l as [|a r IH]; cbn; intros Hnd Hne; constructor.
+  - intros Hin. destruct (f a) as [|y ys] eqn:Ea; [exact (Hne a (or_introl eq_refl) Ea)|].
+    apply (NoDup_app_disj (y :: ys) (flat_map f r) y Hnd); [left; reflexivity|].
+    apply in_flat_map. exists a. split; [exact Hin|rewrite Ea; left; reflexivity].
+  - apply IH; [eapply NoDup_app_r, Hnd|intros x Hx; apply Hne; right; exact Hx].
+Qed.
+
+Lemma Forall2_fun_NoDup {X Y} (P : X -> Y -> Prop) l l' :
+  (forall x y y', P x y -> P x y' -> y = y') -> Forall2 P l l' -> NoDup l' -> NoDup l.
+Proof.
+  intros Hf H. induction H as [|a b l l' Hab Hl IH]; intros Hnd; constructor; inversion Hnd as [|? ? Hb Hr]; subst.
+  - intros Hin. apply Hb. destruct (Forall2_in_l _ _ _ _ Hl Hin) as (y & Hy & Hay). rewrite (Hf _ _ _ Hab Hay). exact Hy.
+  - apply IH, Hr.
 Qed.
 
 (* ---------------------------------------------------------------- the theorem *)
-Definition no_given (rows : list crow) : Prop := forall cr, In cr rows -> cr_uuid cr = [].
-
-Definition starts_with_node (rows : list crow) : Prop :=
-  match rows with cr :: _ => match r_type (cr_row cr) with TNode _ _ _ => True | _ => False end | [] => True end.
-
 Lemma empty_flow_traces (F : flow) : f_nodes F = [] -> forall t, exec sexp (lts_of_flow F) init_state t <-> (t = [] \/ t = [EEnd]).
 Proof.
   intros HF0 t. assert (HK : lts_of_flow F init_state = KEnd) by (unfold lts_of_flow, init_state; cbn; rewrite HF0; reflexivity). split.
@@ -99,57 +120,113 @@ Proof.
   - intros [-> | ->]; [constructor|apply ex_end, HK].
 Qed.
 
-Theorem compile_refines_rowsem_partial validate name rows f ref :
+(* the rows AS READ (padding entries dropped on both sides) *)
+Theorem compile_read_refines_rowsem_read validate name rows f ref :
   (forall us, validate us = None -> NoDup us) ->
-  Forall row_ok rows -> no_given rows -> starts_with_node rows ->
-  compile_with fresh validate name rows = Ok f -> rowsem nab (map cr_row rows) = Some ref ->
+  Forall row_ok rows ->
+  compile_read_with fresh validate name rows = Ok f -> rowsem_read nab (map cr_row rows) = Some ref ->
   (forall t, traces ref t -> exists t', traces f t' /\ Forall2 (ematch sexp smatch) t t')
   /\ (forall t, traces f t -> exists t', traces ref t' /\ Forall2 (ematch sexp (fun a b => smatch b a)) t t').
 Proof.
-  intros Hv Hok Hng Hfirst. unfold compile_with, rowsem.
-  destruct (crun fresh rows) as [sc|x] eqn:Ec; [|discriminate].
+  intros Hv Hok. unfold compile_read_with, rowsem_read.
+  destruct (crun_read fresh rows) as [sc|x] eqn:Ec; [|discriminate].
   destruct (run_rows nab (map cr_row rows) st0 []) as [sr|] eqn:Er; [|discriminate].
   intros Hf Href. injection Href as <-.
-  set (GP := fun _ : id => False).
-  assert (GPns : forall u, GP u -> u <> hard_exit_sentinel) by (intros u []).
-  assert (Hgiven : forall cr, In cr rows -> cr_uuid cr <> [] -> GP (cr_uuid cr)) by (intros cr Hin Hne; apply Hne, Hng, Hin).
-  unfold traces.
-  destruct rows as [|cr0 rest].
-  - (* the empty sheet: both flows are empty *)
-    cbn in Er. injection Er as <-. unfold crun in Ec. cbn in Ec. injection Ec as <-.
+  set (GP := fun u : id => u <> hard_exit_sentinel).
+  assert (GPns : forall u, GP u -> u <> hard_exit_sentinel) by (intros u H; exact H).
+  assert (HGP : forall (u nm : str), nm = u /\ u <> hard_exit_sentinel -> GP u) by (intros u nm [_ H]; exact H).
+  assert (Hgiven : forall cr, In cr rows -> cr_uuid cr <> [] -> GP (cr_uuid cr)).
+  { intros cr Hin Hne. rewrite Forall_forall in Hok. destruct (Hok cr Hin) as (_ & Henc & _). apply Henc, Hne. }
+  unfold traces. unfold crun_read in Ec.
+  destruct (run_sim fresh fresh_inj fresh_not_sentinel GP GPns HGP rows [] st0 cs0 [] sr sc Hok Hgiven Sim_init (Inv_cs0 fresh GP) eq_refl Er Ec)
+    as (phi & Hsim & Hinv & _ & _).
+  destruct (cfinish_idx GP validate name sc f Hinv Hf) as (nds & ls & root & HF & Hval & Hidx & Hcover & Es & Em).
+  assert (Hnd : NoDup (map cn_uuid nds)) by (apply Hv, Hval).
+  pose proof (order_sim phi sr sc root ls Hsim Es Em) as Hord.
+  set (idxs := concat ls) in *. set (ridxs := node_order sr) in *.
+  (* the reference order: every node once *)
+  assert (Hrbound : forall k, In k ridxs -> k < length (s_nodes sr)).
+  { intros k Hk. unfold ridxs, node_order in Hk. apply in_flat_map in Hk as (g & _ & Hk). eapply grow_bound; [exact Hsim|]. eapply gnodes_grow, Hk. }
+  assert (Hphi : forall k, k < length (s_nodes sr) -> exists c, nth_error phi k = Some c).
+  { intros k Hk. rewrite <- (sim_len _ _ _ Hsim) in Hk. destruct (nth_error phi k) as [c|] eqn:E; [eauto|apply nth_error_None in E; lia]. }
+  assert (Hnd_idx : NoDup idxs).
+  { eapply (Forall2_fun_NoDup _ idxs nds); [|exact Hidx|eapply NoDup_map_inv, Hnd]. intros x y y' H1 H2. congruence. }
+  assert (Hrnodup : NoDup ridxs).
+  { apply (NoDup_flat_map_arg (cidx phi)); [rewrite <- Hord; exact Hnd_idx|].
+    intros k Hk. destruct (Hphi k (Hrbound k Hk)) as (c & Hc). unfold cidx. rewrite Hc. destruct c as [a [j|]]; discriminate. }
+  assert (Hrcover : forall k, k < length (s_nodes sr) -> In k ridxs).
+  { intros k Hk. destruct (Hphi k Hk) as (c & Hc).
+    destruct (nth_error (s_nodes sr) k) as [n|] eqn:En; [|apply nth_error_None in En; lia].
+    destruct (sim_nodes _ _ _ Hsim k n c En Hc) as (nd & o & Hcn & _).
+    assert (Hlt : fst c < length (cs_nodes sc)).
+    { unfold cluster_nodes in Hcn. destruct (nth_error (cs_nodes sc) (fst c)) eqn:E; [apply nth_error_Some; congruence|discriminate]. }
+    pose proof (Hcover _ Hlt) as Hin. rewrite Hord in Hin. apply in_flat_map in Hin as (k' & Hk' & Hin').
+    destruct (Nat.eq_dec k' k) as [->|Hne]; [exact Hk'|]. exfalso.
+    destruct (Hphi k' (Hrbound k' Hk')) as (c' & Hc'). unfold cidx in Hin'. rewrite Hc' in Hin'.
+    eapply (flat_map_NoDup_idx cluster_idx phi k' k c' c (fst c) (sim_disj _ _ _ Hsim)); eauto. left. reflexivity. }
+  destruct ridxs as [|k0 rrest] eqn:Eri.
+  - (* no node at all: both flows are empty *)
+    assert (Hn0 : s_nodes sr = []) by (destruct (s_nodes sr) as [|n0 r0]; [reflexivity|exfalso; exact (Hrcover 0 ltac:(cbn; lia))]).
+    assert (HR0 : f_nodes (to_flow sr) = []) by (unfold to_flow; cbn [f_nodes]; fold ridxs; rewrite Eri; reflexivity).
     assert (HF0 : f_nodes f = []).
-    { revert Hf. unfold cfinish_with. cbn. destruct (validate _); [discriminate|]. intros H. injection H as <-. reflexivity. }
+    { rewrite HF. cbn in Hord. assert (idxs = []) by exact Hord. rewrite H in Hidx. inversion Hidx. reflexivity. }
     split; intros t Ht.
-    + apply (empty_flow_traces (to_flow st0) eq_refl) in Ht.
+    + apply (empty_flow_traces (to_flow sr) HR0) in Ht.
       destruct Ht as [-> | ->]; [exists []; split; constructor|].
       exists [EEnd]. split; [apply (empty_flow_traces f HF0); auto|constructor; [exact I|constructor]].
     + apply (empty_flow_traces f HF0) in Ht.
       destruct Ht as [-> | ->]; [exists []; split; constructor|].
-      exists [EEnd]. split; [apply (empty_flow_traces (to_flow st0) eq_refl); auto|constructor; [exact I|constructor]].
-  - (* the first row, then the others *)
-    cbn in Hfirst. destruct (r_type (cr_row cr0)) as [cls payloads dec0| | | | | |] eqn:Et; try contradiction.
-    pose proof (crun_First cr0 rest sc _ _ _ Et Ec) as HFirst.
-    cbn [map] in Er. rewrite run_rows_cons in Er. unfold crun in Ec. cbn [foldM] in Ec.
-    destruct (rstep st0 [] (cr_row cr0)) as [[s1 h1]|] eqn:Er1; [|discriminate].
-    destruct (cstep fresh cs0 cr0) as [c1|x] eqn:Ec1; [|discriminate].
-    unfold rstep in Er1. rewrite Et in Er1. destruct (step_row nab st0 (cr_row cr0)) as [s1'|] eqn:Es1; [|discriminate]. injection Er1 as <- <-.
-    inversion Hok as [|? ? Hcr0 Hrest]; subst.
-    destruct (node_row_sim fresh fresh_inj fresh_not_sentinel GP GPns [] st0 cs0 cr0 cls payloads dec0 s1' c1
-                           Sim_init (inv_st _ _ _ (Inv_cs0 fresh GP)) Hcr0 Et Es1 Ec1) as (phi1 & S1 & Hh1 & _ & Hk1).
-    cbn in Hk1, Hh1.
-    assert (Hinv1 : Inv fresh GP c1).
-    { eapply (cstep_ok fresh GP fresh_inj); [|apply Inv_cs0|exact Ec1]. intros Hne. exfalso. apply Hne, Hng. left. reflexivity. }
-    destruct (run_sim fresh fresh_inj fresh_not_sentinel GP GPns rest phi1 s1' c1 [] sr sc Hrest
-                      (fun cr Hin => Hgiven cr (or_intror Hin)) S1 Hinv1 Hh1 Er Ec) as (phi & Hsim & Hinv & _ & L2).
-    destruct (cfinish_idx GP validate name sc f Hinv Hf) as (nds & idxs & HF & Hval & Hidx & Hcover & Hfst).
-    assert (Hnd : NoDup (map cn_uuid nds)) by (apply Hv, Hval).
-    destruct (Hfst HFirst) as (irest & Eidx).
-    destruct (L2 0 _ Hk1) as (c0 & Hc0 & Ef0). cbn in Ef0.
-    assert (Hlen : 0 < length (s_nodes sr)) by (rewrite <- (sim_len _ _ _ Hsim); apply nth_error_Some; congruence).
-    destruct (nth_error (s_nodes sr) 0) as [n0|] eqn:En0; [|apply nth_error_None in En0; lia].
-    assert (Hrel : Rel phi sr idxs f (0, 0) (0, 0)).
-    { eapply (Rel_node phi sr idxs f 0 n0 c0 0 0); eauto; [rewrite Ef0, Eidx; reflexivity|lia]. }
-    destruct (rel_traces fresh GP phi sr sc Hsim (inv_st _ _ _ Hinv) nds idxs f HF Hidx Hcover Hnd (0, 0) (0, 0) Hrel) as [T1 T2].
+      exists [EEnd]. split; [apply (empty_flow_traces (to_flow sr) HR0); auto|constructor; [exact I|constructor]].
+  - (* both flows start at the first node in sheet order *)
+    assert (Hk0 : k0 < length (s_nodes sr)) by (apply Hrbound; left; reflexivity).
+    destruct (Hphi k0 Hk0) as (c0 & Hc0).
+    destruct (nth_error (s_nodes sr) k0) as [n0|] eqn:En0; [|apply nth_error_None in En0; lia].
+    assert (Hp0 : nth_error idxs 0 = Some (fst c0)).
+    { rewrite Hord. cbn [flat_map]. unfold cidx at 1. rewrite Hc0. destruct c0 as [a [j|]]; reflexivity. }
+    assert (Hrel : Rel phi sr idxs f (k0 :: rrest) (0, 0) (0, 0)).
+    { eapply (Rel_node phi sr idxs f (k0 :: rrest) k0 n0 c0 0 0 0); eauto. lia. }
+    destruct (rel_traces fresh GP phi sr sc Hsim (inv_st _ _ _ Hinv) nds idxs f HF Hidx Hcover Hnd (k0 :: rrest) Eri Hrbound Hrcover Hrnodup (0, 0) (0, 0) Hrel) as [T1 T2].
     split; [exact T1|exact T2].
 Qed.
+
+(* ---------------------------------------------------------------- the rows as written *)
+Lemma crun_read_rows rows : crun fresh rows = crun_read fresh (map cread_row rows).
+Proof.
+  unfold crun, crun_read. generalize cs0. induction rows as [|cr r IH]; intros s; cbn; [reflexivity|].
+  unfold cstep at 1. destruct (cstep_read fresh s (cread_row cr)); [apply IH|reflexivity].
+Qed.
+
+Lemma compile_read_rows validate name rows : compile_with fresh validate name rows = compile_read_with fresh validate name (map cread_row rows).
+Proof. unfold compile_with, compile_read_with. rewrite crun_read_rows. reflexivity. Qed.
+
+Lemma reads_same_rows rows : Forall reads_same rows -> map cr_row (map cread_row rows) = map read_row (map cr_row rows).
+Proof.
+  induction 1 as [|cr r H _ IH]; cbn [map]; [reflexivity|]. rewrite IH.
+  assert (E : cr_row (cread_row cr) = read_row (cr_row cr)); [|rewrite E; reflexivity].
+  unfold cread_row, read_row. cbn [cr_row r_type r_id r_node_name r_edges]. unfold reads_same in H. rewrite H. reflexivity.
+Qed.
+
+Lemma row_ok_read cr : row_ok cr -> row_ok (cread_row cr).
+Proof.
+  intros [He Hr]. unfold row_ok, cread_row. cbn [cr_row cr_kind cr_uuid r_edges r_type r_node_name]. split; [|exact Hr].
+  unfold read_edges. destruct padding_edges_dropped_at_read; [|exact He].
+  unfold drop_padding. destruct (r_edges (cr_row cr)) as [|e0 rest]; [constructor|]. inversion He as [|? ? H0 Hrest]; subst.
+  constructor; [exact H0|]. rewrite Forall_forall in *. intros e Hin. apply filter_In in Hin as [Hin _]. auto.
+Qed.
+
+(* for every sheet of the fragment whose rows the code of this run reads as the reference does *)
+Theorem compile_refines_rowsem_partial validate name rows f ref :
+  (forall us, validate us = None -> NoDup us) ->
+  Forall row_ok rows -> Forall reads_same rows ->
+  compile_with fresh validate name rows = Ok f -> rowsem nab (map cr_row rows) = Some ref ->
+  (forall t, traces ref t -> exists t', traces f t' /\ Forall2 (ematch sexp smatch) t t')
+  /\ (forall t, traces f t -> exists t', traces ref t' /\ Forall2 (ematch sexp (fun a b => smatch b a)) t t').
+Proof.
+  intros Hv Hok Hsame Hc Hr. rewrite compile_read_rows in Hc.
+  change (rowsem nab (map cr_row rows)) with (rowsem_read nab (map read_row (map cr_row rows))) in Hr.
+  rewrite <- (reads_same_rows rows Hsame) in Hr.
+  eapply (compile_read_refines_rowsem_read validate name (map cread_row rows)); eauto.
+  apply Forall_forall. intros cr Hin. apply in_map_iff in Hin as (cr0 & <- & Hin0). apply row_ok_read. rewrite Forall_forall in Hok. auto.
+Qed.
 End Final.
+End WithNames.
